@@ -21,7 +21,7 @@ Reset == /\ l <= Len(Trace) /\ Trace[l].t = "init"
          /\ lhead' = [p \in Procs |-> 0] /\ off' = [p \in Procs |-> 0] /\ lim' = [p \in Procs |-> 0]
          /\ start' = [p \in Procs |-> 0] /\ tries' = [p \in Procs |-> 0] /\ old' = [p \in Procs |-> 0]
          /\ vslot' = [p \in Procs |-> 0] /\ vold' = [p \in Procs |-> 0]
-         /\ err' = [p \in Procs |-> "none"] /\ done' = [p \in Procs |-> FALSE]
+         /\ err' = [p \in Procs |-> "none"] /\ done' = [p \in Procs |-> 0]
          /\ l' = l + 1
 Consume == /\ l <= Len(Trace) /\ Trace[l].t \in Procs
            /\ Step(Trace[l].t)
